@@ -94,8 +94,43 @@ def grammar_case(rng):
                          endif=True)
 
 
+def graph_case(rng):
+    """Declaration graphs (function block instances, structure members, aliases, array elements) with no, one or
+    several cycles, disjoint or connected to each other: what the recursion check and its diagnostic walk over."""
+    import c07
+    if rng.random() < 0.5:
+        n, edges = c07.random_graph(rng)
+    else:
+        # 2-4 cycles of length 1-4, some of them linked by extra edges (a node of one cycle refers to another cycle)
+        edges = set()
+        cycles = []
+        n = 0
+        for _ in range(rng.randint(2, 4)):
+            ln = rng.randint(1, 4)
+            nodes = list(range(n, n + ln))
+            n += ln
+            cycles.append(nodes)
+            for a, b in zip(nodes, nodes[1:] + nodes[:1]):
+                edges.add((a, b))
+        for _ in range(rng.randint(0, 4)):
+            a, b = rng.sample(range(len(cycles)), 2)
+            edges.add((rng.choice(cycles[a]), rng.choice(cycles[b])))
+        for _ in range(rng.randint(0, 2)):          # plus a few acyclic hangers-on
+            edges.add((n, rng.randrange(n)))
+            n += 1
+        edges = sorted(edges)
+    order = list(range(n))
+    rng.shuffle(order)
+    kind = rng.choice(["fb", "struct", "mixed", "array", "hetero"])
+    if kind == "hetero":
+        return c07.realise_hetero(n, edges, order, c07.hetero_vector(rng, n, edges))
+    return c07.realise(kind, n, edges, order)
+
+
 def gen_case(rng, i):
-    k = i % 8
+    k = i % 9
+    if k == 8:
+        return {"gen": "graph", "text": graph_case(rng)}
     if k == 7:
         return {"gen": "grammar", "text": grammar_case(rng)}
     if k == 6:
@@ -153,6 +188,54 @@ def shard(shard, nshards, payload):
     return d
 
 
+def project_case(res, rng, tmp, i):
+    """A compilation set of several files through `check <dir>`: a unit with a planted fault or a same-named twin, its
+    declarations spread over files, so that diagnostics (and their secondary labels) cross file boundaries."""
+    import shutil
+    import vgen
+    decls = vgen.VGen(rng).unit()
+    faults = list(vgen.plant_all(decls))
+    what = "valid"
+    if faults and rng.random() < 0.7:
+        decls = rng.choice(faults)[2]
+        what = "fault"
+    named = [d for d in decls if d["k"] in ("enum", "struct", "fb", "program", "function")]
+    if named and rng.random() < 0.4:
+        d = rng.choice(named)
+        decls = decls + [{"k": "raw", "text": "FUNCTION_BLOCK %s VAR zz : INT; END_VAR zz := 1; END_FUNCTION_BLOCK" % d["name"]}]
+        what += "+twin"
+    k = rng.randint(2, 4)
+    buckets = [[] for _ in range(k)]
+    for dd in decls:
+        buckets[rng.randrange(k)].append(dd)
+    ddir = os.path.join(tmp, "proj%d" % i)
+    os.makedirs(ddir)
+    files = []
+    for j, b in enumerate(buckets):
+        text = vgen.render_unit(b, oscat=rng if rng.random() < 0.3 else None) if b else rng.choice(["", "(* nothing here *)\n"])
+        files.append(["p%d.st" % j, text])
+        open(os.path.join(ddir, "p%d.st" % j), "w").write(text)
+    for args in ([ddir], [os.path.join(ddir, f[0]) for f in reversed(files)]):
+        r = core.run_cli(["check"] + args, tmp, timeout=25.0)
+        res.evaluations += 1
+        res.count("cli:project")
+        case = {"gen": "project:" + what, "cli": "check", "files": files}
+        if r["watchdog"]:
+            if (r.get("cpu_s") or 0) * 1e9 >= CPU_BUDGET_NS:
+                res.violation("hang", "cli:cpu-budget", "more than %.0f s of CPU" % r["cpu_s"], case)
+            else:
+                res.inconclusive.append({"why": "cli watchdog", "case": case})
+        elif r["rc"] is None or r["rc"] < 0 or r["rc"] == 101 or r["rc"] >= 128:
+            pm = core.cli_panic(r["err"])
+            sig = "cli:rc=%s" % r["rc"]
+            if pm:
+                sig = "%s:%s" % (pm[0], norm_msg(pm[1]))
+            res.violation("crash", sig, r["err"][-400:], case)
+        else:
+            res.distinct.add(core.key_of("project", str(files), len(args)))
+    shutil.rmtree(ddir, ignore_errors=True)
+
+
 def cli_shard(shard, nshards, payload):
     """Raw byte files through the real binary: exit 101 / signal = crash."""
     res = core.Result()
@@ -169,6 +252,9 @@ def cli_shard(shard, nshards, payload):
                 case = gen_case(rng, rng.randrange(1, 5))
                 data = case["text"].encode("utf-8", "replace")
                 gen = case["gen"]
+            if i % 5 == 3:
+                project_case(res, rng, tmp, i)
+                continue
             path = os.path.join(tmp, "f%d.st" % i)
             with open(path, "wb") as f:
                 f.write(data)
@@ -370,6 +456,16 @@ def replay(case):
         return (not res.violations), json_short(obs)
     core.build_plc()
     tmp = core.worker_tmpdir("c04r")
+    if "files" in c:
+        d = os.path.join(tmp, "proj")
+        os.makedirs(d, exist_ok=True)
+        for n_, t_ in c["files"]:
+            open(os.path.join(d, n_), "w").write(t_)
+        for _ in range(4):
+            r = core.run_cli(["check", d], tmp)
+            if r["rc"] is None or r["rc"] < 0 or r["rc"] == 101 or r["rc"] >= 128:
+                return False, "rc=%s %s" % (r["rc"], r["err"][-300:])
+        return True, "rc=%s" % r["rc"]
     path = os.path.join(tmp, "f.st")
     open(path, "wb").write(bytes.fromhex(c["hex"]))
     r = core.run_cli([c["cli"], path], tmp)
